@@ -47,12 +47,20 @@ def check_string(rec, s):
             rec.violation('decode-mismatch', {'fn': 'decode', 's': s, 'plus': plus, 'got': got, 'want': want,
                                               'mode': rec.mode}, known_key=known)
     # -- encoders
+    by_keyword = len(s) % 5 == 3       # the documented parameter names are part of the call interface
+    if by_keyword:
+        try:
+            if uri.decode(encoded_uri=s, unquote_plus=True) != uri.decode(s):
+                rec.violation('decode-mismatch', {'fn': 'decode', 's': s, 'call': 'keyword'})
+            rec.count('mon.call_by_keyword')
+        except Exception as ex:  # noqa
+            rec.violation('decode-raised', {'fn': 'decode', 's': s, 'call': 'keyword', 'exc': repr(ex)})
     for name, value, chk in ENCODERS:
         fn = getattr(uri, name)
         try:
-            out = fn(s)
+            out = fn(uri=s) if by_keyword else fn(s)
         except Exception as ex:  # noqa
-            rec.violation('encode-raised', {'fn': name, 's': s, 'exc': repr(ex)})
+            rec.violation('encode-raised', {'fn': name, 's': s, 'exc': repr(ex), 'call': 'keyword' if by_keyword else 'positional'})
             continue
         rec.count('mon.' + name)
         if not chk:
@@ -258,7 +266,7 @@ def authority_grammar(rec):
                 full = text if port is None else '%s:%d' % (text, port)
                 want = (host, default if port is None else port)
                 try:
-                    got = uri.parse_host(full, default)
+                    got = uri.parse_host(host=full, default_port=default) if port == 1 else uri.parse_host(full, default)
                 except Exception as ex:  # noqa
                     rec.violation('parse_host-raised', {'host': full, 'default': default, 'exc': repr(ex)})
                     continue
@@ -486,6 +494,7 @@ def run(rec):
     threaded_phase(rec)
     rec.floor('mon.decode', 1000)
     rec.floor('unicode.codepoints', 2000)
+    rec.floor('mon.call_by_keyword', 200)
     rec.floor('long_inputs', 20)
     rec.floor('unicode.predicate_strings', 500)
     rec.floor('mon.threaded_decode', 200)
